@@ -1,11 +1,17 @@
 #!/usr/bin/env python3
-"""Regenerates MANIFEST.json from checks_meta.json (one entry per claimed property) and properties.jsonl.
+"""Regenerates MANIFEST.json from harness/engines/*/meta.json (one entry per claimed property) and properties.jsonl.
 Every property without an entry in checks_meta.json is listed under not_applicable with its reason from
 not_claimed.json (default: not built yet)."""
 import json, subprocess, sys, os
 root = os.path.dirname(os.path.abspath(__file__))
 props = [json.loads(l) for l in open(os.path.join(root, 'properties.jsonl'))]
-meta = json.load(open(os.path.join(root, 'checks_meta.json')))
+import glob
+meta = {}
+for f in sorted(glob.glob(os.path.join(root, 'harness/engines/*/meta.json'))):
+    eng = os.path.basename(os.path.dirname(f))
+    for k, v in json.load(open(f)).items():
+        v.setdefault('engine', eng)
+        meta[k] = v
 try:
     not_claimed = json.load(open(os.path.join(root, 'not_claimed.json')))
 except FileNotFoundError:
